@@ -154,6 +154,10 @@ class FitResult(HoloPyObject):
             attr = getattr(self, key)
             kwdict = xr_kw if isinstance(attr, xr.DataArray) else yaml_kw
             kwdict[key] = copy(attr)
+            if isinstance(attr, dict):
+                # e.g. scipy's OptimizeResult: save as a plain mapping,
+                # which (unlike an arbitrary python object) can be loaded
+                kwdict[key] = dict(attr)
         attrs['_kwargs'] = yaml.dump(yaml_kw, default_flow_style=True)
         for key, val in xr_kw.items():
             xr_kw[key].attrs = pack_attrs(val)
